@@ -34,6 +34,7 @@ func Spec() *run.Spec {
 			"Directed sequence (all phases, about 1 in 20 operations): a node that has executed loses every wired input (named inputs cleared, array entries removed down to the empty array), then it and a consumer are read. " +
 			"Phase first-use: every case runs in a worker process of its own, so the processor types are new to polyform; per kind (3-9 of the kinds with named inputs) a sparse instance (some / the only named input unwired) and a full instance are built, in half of the cases the sparse instances execute first, in the other half the full ones; per open input: its source on the full instance changes, read; the input is wired on the sparse instance, read, its source changes, read; then 10-40 random operations; same checks (every case counts as non-trivial). In the batched phases the harness records per worker process which named inputs were unwired on the first instance of each kind that executed, and counts the later reads of other instances (other cases) that have such an input wired and changed. " +
 			"Phase large-fan-in: one node with 65, 64, 66, 63, 100, 129, 128, 200, 300 (then random 60-300) wired dependencies, as one array input (string or int), two array inputs (sometimes both below 64 with the sum past it) or two named inputs plus an array; every dependency has a source of its own (for a quarter / a tenth of them in half of the cases through a unary node); after a first read, single updates that touch exactly one dependency at sorted position first / 62 / 63 / 64 / 65 / 66 / last / 6 random ones, a read of the node (or its consumer) after each, then two far dependencies at once, then 15 removals / updates / reads; same checks (every case counts as non-trivial). " +
+			"Panicking processor (kind Div, all phases): an integer division that panics when its B input reads 0; the reader recovers the panic (as the HTTP handlers do) and carries on: a Process() left by a panic is not an execution (no version move demanded or allowed beyond completed executions), every later read must equal the from-scratch evaluation. Directed sequence (about 1 in 12 operations): Div executed with B wired to an int source P -> another int source Q is steered (by extra updates of P / Q) to the version at which the repair below lands on exactly the version of P that Div remembers -> Q := 0 -> B re-wired to Q -> read (panics, recovered) -> Q := non-zero -> read: the value of the new wiring. " +
 			"Non-trivial: the history re-reads a node whose cone contains a node with >= 2 dependencies at different versions (the state in which a permuted dependency order shows). Distinctness: shape / node-count bucket / source count / longest array bucket / history length bucket.",
 		Assumptions: []string{
 			"processors are pure functions of their inputs (no side effects besides the harness counter); two kinds (ChkI: negative input, ChkS: a third of all strings) return (fallback value, error): Value() must hand out that fallback (what nodes.Struct does with the result of Process()), an execution that ends in an error counts as one execution and +1 version like any other (behaviour of the unchanged tree), and State() of an up-to-date failed node may be Processed (unchanged tree) or Error",
@@ -45,25 +46,28 @@ func Spec() *run.Spec {
 		},
 		MinNontrivial: map[string]int{"quick": 100, "thorough": 300},
 		MinObserved: map[string]int64{
-			"idle_rereads":                                          2000,
-			"reads_mixed_dep_versions":                              300,
-			"executions":                                            1000,
-			"reads_array_ge10_in_cone":                              50,
-			"state_checks":                                          5000,
-			"ops_array_remove":                                      50,
-			"ops_set_named_replace":                                 50,
-			"ops_update_parameter.Value":                            50,
-			"ops_update_nodes.ValueNode":                            50,
-			"lazy_scenario_condition_flipped":                       100,
-			"fail_scenario_recovered":                               100,
-			"fail_scenario_made_to_fail":                            100,
-			"executions_ending_in_error":                            500,
-			"large_fan_in_histories_with_more_than_64_dependencies": 5,
-			"large_fan_in_single_dependency_updates_at_sorted_position_ge64":                      20,
-			"large_fan_in_position_classes":                                                       8,
-			"executed_node_lost_its_last_input_then_read":                                         500,
-			"executed_node_array_emptied_then_read":                                               100,
-			"first_use_cases_in_a_fresh_process":                                                  40,
+			"idle_rereads":                                                   2000,
+			"reads_mixed_dep_versions":                                       300,
+			"executions":                                                     1000,
+			"reads_array_ge10_in_cone":                                       50,
+			"state_checks":                                                   5000,
+			"ops_array_remove":                                               50,
+			"ops_set_named_replace":                                          50,
+			"ops_update_parameter.Value":                                     50,
+			"ops_update_nodes.ValueNode":                                     50,
+			"lazy_scenario_condition_flipped":                                100,
+			"fail_scenario_recovered":                                        100,
+			"fail_scenario_made_to_fail":                                     100,
+			"executions_ending_in_error":                                     500,
+			"reads_recovered_from_processor_panic":                           500,
+			"rewire_then_panic_then_repair_sequences":                        300,
+			"version_coincidences_after_rewire":                              200,
+			"large_fan_in_histories_with_more_than_64_dependencies":          5,
+			"large_fan_in_single_dependency_updates_at_sorted_position_ge64": 20,
+			"large_fan_in_position_classes":                                  8,
+			"executed_node_lost_its_last_input_then_read":                    500,
+			"executed_node_array_emptied_then_read":                          100,
+			"first_use_cases_in_a_fresh_process":                             40,
 			"first_use_input_unwired_on_first_instance_wired_on_later_instance_changed_and_read":  30,
 			"first_use_input_unwired_at_first_execution_wired_later_changed_and_read":             60,
 			"first_use_input_wired_on_first_instance_changed_and_read":                            30,
@@ -129,6 +133,8 @@ type hist struct {
 	uniq   int
 	rot    int
 	dead   bool
+	// the last read ended in a processor panic that the mirror expects (recovered)
+	lastRecovered bool
 
 	mixedReads, arr10Reads int
 	maxArr                 int
@@ -372,6 +378,9 @@ func (h *hist) randomOp() {
 	if r.Intn(20) == 0 && h.emptyScenario() {
 		return
 	}
+	if r.Intn(12) == 0 && h.panicScenario() {
+		return
+	}
 	if r.Intn(12) == 0 && h.floatScenario() {
 		return
 	}
@@ -557,6 +566,9 @@ func (h *hist) updateParamOpts(k int, same bool, parity int, sign int) {
 			}
 			if (sign == 0 && h.r.Intn(6) == 0) || sign < 0 {
 				v = -v
+			}
+			if sign == 2 {
+				v = 0
 			}
 			p.changedHard = m.clock
 		}
@@ -1154,6 +1166,13 @@ func (h *hist) read(i int) {
 		if !ok {
 			return
 		}
+		if h.lastRecovered {
+			return // no value was returned; the next read finds the node still outdated
+		}
+		if m.panics()[i] {
+			h.res.Count("reads_returning_a_value_where_the_mirror_panics", 1)
+			continue
+		}
 		want := m.eval(i)
 		if got != want {
 			in := "first read after a change"
@@ -1219,10 +1238,18 @@ func (h *hist) step(desc string, readIdx int, idle bool, opKind string, f func()
 		clos = m.closure(readIdx)
 	}
 	h.log = h.log[:0]
+	h.lastRecovered = false
 	if p := run.Try(f); p != nil {
-		h.violate("panic", p.Site, opKind, fmt.Sprintf("operation %q panicked: %s\n%s", desc, p.Value, p.Stack))
-		h.dead = true
-		return false
+		if readIdx >= 0 && strings.Contains(p.Value, "integer divide by zero") && m.panics()[readIdx] {
+			// a processor below the node read divides by a zero-valued input: the read
+			// panics, the reader recovers (as the HTTP handlers do) and carries on
+			h.lastRecovered = true
+			h.res.Count("reads_recovered_from_processor_panic", 1)
+		} else {
+			h.violate("panic", p.Site, opKind, fmt.Sprintf("operation %q panicked: %s\n%s", desc, p.Value, p.Stack))
+			h.dead = true
+			return false
+		}
 	}
 	inClass := opKind
 	if readIdx >= 0 {
@@ -1236,6 +1263,11 @@ func (h *hist) step(desc string, readIdx int, idle bool, opKind string, f func()
 	for i, ln := range h.ln {
 		dvs[i] = ln.node.Version() - verB[i]
 		des[i] = ln.rec.execs - exB[i]
+		if h.lastRecovered && des[i] == dvs[i]+1 {
+			// Process() of this node was entered and left by the panic: not an execution
+			des[i] = dvs[i]
+			h.res.Count("executions_aborted_by_a_processor_panic", 1)
+		}
 		if des[i] > 0 && readIdx >= 0 {
 			m.nodes[i].lastExec = m.clock
 		}
